@@ -277,7 +277,8 @@ func sliceObligation(o *Obligation, hops int) *Obligation {
 	symsOf := func(t string) []string {
 		var out []string
 		for _, s := range reSym.FindAllString(t, -1) {
-			if declared[s] {
+			// allocation frontiers connect everything: they do not propagate relevance
+			if declared[s] && !strings.HasPrefix(s, "alloc") {
 				out = append(out, s)
 			}
 		}
